@@ -15,17 +15,20 @@ def hpAdd (a b : Int) : Int := satI16 (a + b)
 def mvAdd (a b : Mv) : Mv := (hpAdd a.1 b.1, hpAdd a.2 b.2)
 
 /-- `HalfPel::into_lerp_parameters`: (whole-sample offset, interpolate?)  (Rust `/` and `%` truncate) -/
+def tdiv2 (v : Int) : Int := if 0 ≤ v then v / 2 else -((-v) / 2)
+def tmod2 (v : Int) : Int := v - 2 * tdiv2 v
+
 def lerpParams (v : Int) : Int × Bool :=
-  if Int.tmod v 2 = 0 then (Int.tdiv v 2, false)
-  else if v < 0 then (Int.tdiv v 2 - 1, true)
-  else (Int.tdiv v 2, true)
+  if tmod2 v = 0 then (tdiv2 v, false)
+  else if v < 0 then (tdiv2 v - 1, true)
+  else (tdiv2 v, true)
 
 /-- `HalfPel::invert` -/
 def invert (v : Int) : Int :=
   if v > 0 then v - Gen.HP_INVERT_POS else if v < 0 then v + Gen.HP_INVERT_NEG else v
 
 /-- `HalfPel::is_mv_within_range` -/
-def withinRange (v range : Int) : Bool := decide (-range ≤ v) && decide (v < range)
+def withinRange (v range : Int) : Bool := decide (-range ≤ v ∧ v < range)
 
 /-- `HalfPel::average_sum_of_mvs`: `whole = (v >> 4) << 1; frac = v & 0x0F` -/
 def averageSum (v : Int) : Int :=
@@ -99,7 +102,7 @@ def predictCandidate (pv : Array Mv4) (cur : Mv4) (mbPerLine : Nat) (index : Nat
 def halfpelDecode (hdr : PicHdr) (dims : Option (Nat × Nat)) (running : Nat) (predictor mvd : Int) (isX : Bool) : Int :=
   let out := hpAdd mvd predictor
   let umv := Opt.has running Opt.UNRESTRICTED_MOTION_VECTORS
-  let go (range : Int) : Int := if !(withinRange out range) then hpAdd (invert mvd) predictor else out
+  let go (range : Int) : Int := if withinRange out range then out else hpAdd (invert mvd) predictor
   if umv && !hdr.hasPlusptype then
     (if withinRange predictor Gen.HP_STANDARD_RANGE then out else go Gen.HP_EXTENDED_RANGE)
   else if umv && hdr.mvRange == some .extended then
